@@ -17,6 +17,7 @@ pub fn par_map<I: Sync, O: Send, F: Fn(usize, &I) -> O + Sync>(items: &[I], f: F
     let next = AtomicUsize::new(0);
     let out: Mutex<Vec<Option<O>>> = Mutex::new((0..n).map(|_| None).collect());
     let nw = workers().min(n.max(1));
+    let chunk = (n / (nw * 16)).clamp(1, 64);
     std::thread::scope(|s| {
         let mut hs = vec![];
         for _ in 0..nw {
@@ -26,11 +27,11 @@ pub fn par_map<I: Sync, O: Send, F: Fn(usize, &I) -> O + Sync>(items: &[I], f: F
                     let mut local: Vec<(usize, O)> = vec![];
                     loop {
                         // chunks keep contention low for very cheap cases
-                        let start = next.fetch_add(64, Ordering::Relaxed);
+                        let start = next.fetch_add(chunk, Ordering::Relaxed);
                         if start >= n {
                             break;
                         }
-                        for i in start..(start + 64).min(n) {
+                        for i in start..(start + chunk).min(n) {
                             local.push((i, f(i, &items[i])));
                         }
                         if local.len() >= 4096 {
